@@ -324,7 +324,7 @@ func (p c01) Run(c *Ctx, raw json.RawMessage) Case {
 	if modLine == "" {
 		modLine = "module example.com/m"
 	}
-	files["go.mod"] = modLine + "\n\ngo 1.23\n\nrequire github.com/stretchr/testify v1.10.0\n"
+	files["go.mod"] = modLine + "\n\ngo 1.23\n\nrequire github.com/stretchr/testify v1.10.0\n\nrequire (\n\tgithub.com/davecgh/go-spew v1.1.1 // indirect\n\tgithub.com/pmezard/go-difflib v1.0.0 // indirect\n\tgithub.com/stretchr/objx v0.5.2 // indirect\n\tgopkg.in/yaml.v3 v3.0.1 // indirect\n)\n"
 	files["src/src.go"] = emitSource(d)
 	{
 		var lb strings.Builder
@@ -564,7 +564,7 @@ func levelledOptions(opts map[string]any, levels map[string]string, ifaces []str
 // (same package); signatures mention types of the package itself.
 func c01RootPackage(c *Ctx, in *GenInput, dir string) Case {
 	files := map[string]string{
-		"go.mod":  "module example.com/inv\n\ngo 1.23\n\nrequire github.com/stretchr/testify v1.10.0\n",
+		"go.mod":  "module example.com/inv\n\ngo 1.23\n\nrequire github.com/stretchr/testify v1.10.0\n\nrequire (\n\tgithub.com/davecgh/go-spew v1.1.1 // indirect\n\tgithub.com/pmezard/go-difflib v1.0.0 // indirect\n\tgithub.com/stretchr/objx v0.5.2 // indirect\n\tgopkg.in/yaml.v3 v3.0.1 // indirect\n)\n",
 		"inv.go":  "package inv\n\ntype Item struct{ N int }\n\ntype Filter func(Item) bool\n\ntype Store interface {\n\tGet(id int) (Item, error)\n\tFind(f Filter, more ...Item) []Item\n}\n",
 		"use.go":  "package inv\n\nfunc Count(s Store) int { return len(s.Find(nil)) }\n",
 	}
